@@ -32,7 +32,8 @@ type specCase struct {
 }
 
 // supplementalFmtCases of pkg/md/fmt_test.go (test files cannot be imported).
-var supplemental = []string{"~~~ ~`\n~~~", "*&#32;x*", "*x&#32;*", "&#65;*!*", "*!*&#65;", "*&#32;*", `\![a](b)`, `[a](b ('"))`,
+var supplemental = []string{"foo\n01\\. bar", "foo\n001\\) bar", "> foo\n> 01\\. bar", "- foo\n  01\\. bar", "foo\n&#48;1. bar", "aaaa bbbb 01. cc", "aaaa bbbb 001) cc", "foo\n1\\. bar", "foo\n02\\. bar",
+	"~~~ ~`\n~~~", "*&#32;x*", "*x&#32;*", "&#65;*!*", "*!*&#65;", "*&#32;*", `\![a](b)`, `[a](b ('"))`,
 	`[a](b "\"''()")`, `[a](b '\'""()')`, `[a](b (\(''""))`, `[a](<&NewLine;>)`, "&#32;foo", "foo&#32;",
 	// supplementalHTMLTestCases of testutils_test.go
 	"# title {#id}", "- ```\n  a\n\n  ```\n", "> <pre>\n\na\n", "- <pre>\n a\n", "> a\n>> b\n", ">> a\n>\n> b\n", "- \n  \na\n", "a\n- -\n", "a\n- 2.\n",
@@ -85,7 +86,7 @@ func run(c *common.Ctx) error {
 }
 
 var escAtoms = []string{"a", "b", "1", "0", " ", " ", "[", "]", "*", "_", "`", "\\", "&", "<", ">", "#", "-", "+", "~", "=", ".", ")", "(", "!", "\"", "'", ";", ":",
-	"é", " ", "£", "&amp;", "&#32;", "&#x41;", "&a;", "&#;", "1.", "1)", "10.", "- ", "---", "___", "~~~", "##", "# ", "{#i}", " {x}", "http://a", "a@b.c", "</a>", "<!--", "|"}
+	"é", " ", "£", "&amp;", "&#32;", "&#x41;", "&a;", "&#;", "1.", "1)", "10.", "01.", "001)", "&#48;", "- ", "---", "___", "~~~", "##", "# ", "{#i}", " {x}", "http://a", "a@b.c", "</a>", "<!--", "|"}
 
 func gen(c *common.Ctx, emit func(...string)) {
 	var spec []specCase
